@@ -1,6 +1,7 @@
 package vc
 
 import (
+	"sort"
 	"fmt"
 	"go/types"
 	"math/big"
@@ -54,6 +55,48 @@ func (x *Exec) onStack(f *ssa.Function) bool {
 
 // callStatic handles a call to a known function.
 func (x *Exec) callStatic(bc *blockCtx, in ssa.Instruction, f *ssa.Function, binds []*Val, args []*Val) *Val {
+	saved := x.curArgs
+	x.curArgs = args
+	res := x.callStatic1(bc, in, f, binds, args)
+	x.curArgs = saved
+	x.publishSnapshot(bc, fnKey(f))
+	return res
+}
+
+// publishSnapshot: `opt publishlast <callee>` on the function under contract names
+// the call that makes an object visible to other goroutines (an atomic store).
+// The memory state right after that call is remembered in ghost copies GP_<heap>;
+// at every return the real heaps must still equal them (publishObligations): the
+// object is complete when it is published and nothing is written afterwards.
+func (x *Exec) publishSnapshot(bc *blockCtx, callee string) {
+	if x.rootC == nil || x.spec != 0 || bc.fr.depth != 0 {
+		return
+	}
+	want := x.rootC.Opts["publishlast"]
+	if want == "" || normalizeFuncName(want) != callee {
+		return
+	}
+	var keys []string
+	for k := range x.heapSorts {
+		if strings.HasPrefix(k, "G_") || strings.HasPrefix(k, "GA_") || strings.HasPrefix(k, "GP_") {
+			continue
+		}
+		keys = append(keys, k)
+	}
+	sort.Strings(keys)
+	for _, k := range keys {
+		x.heapSorts["GP_"+k] = x.heapSorts[k]
+		bc.st.heaps["GP_"+k] = x.getHeap(bc.st, k)
+	}
+	if !x.publishSeen {
+		x.heapSorts["G_published"] = "Int"
+		x.hyps = append(x.hyps, x.b.Eq(x.initHeap("G_published"), x.b.Int(0)))
+	}
+	bc.st.heaps["G_published"] = x.b.Int(1)
+	x.publishSeen = true
+}
+
+func (x *Exec) callStatic1(bc *blockCtx, in ssa.Instruction, f *ssa.Function, binds []*Val, args []*Val) *Val {
 	name := fnKey(f)
 	if f.Origin() != nil {
 		if _, ok := x.prog.Contracts.Funcs[name]; !ok {
@@ -84,13 +127,20 @@ func (x *Exec) callStatic(bc *blockCtx, in ssa.Instruction, f *ssa.Function, bin
 
 func (x *Exec) havocCall(bc *blockCtx, sig *types.Signature, name string, heaps bool) *Val {
 	if heaps {
+		olds := map[string]*smt.Term{}
 		for k := range x.heapSorts {
+			if k == "G_locked" {
+				// calls are lock-balanced unless their contract lists G_locked
+				continue
+			}
 			old := x.getHeap(bc.st, k)
+			olds[k] = old
 			bc.st.heaps[k] = x.b.Fresh(k+"_after_"+shortFn(name), x.heapSorts[k])
 			if k == "G_alloc" {
 				x.axiom(x.b.Cmp(">=", bc.st.heaps[k], old))
 			}
 		}
+		x.preservePrivate(bc, olds, x.curArgs)
 		x.havocAllOnCall = true
 	}
 	res := sig.Results()
@@ -247,13 +297,19 @@ func (x *Exec) applyContract(bc *blockCtx, in ssa.Instruction, f *ssa.Function, 
 	// effects
 	if !fc.Pure {
 		if fc.Assigns == "" {
+			olds := map[string]*smt.Term{}
 			for k := range x.heapSorts {
+				if k == "G_locked" {
+					continue
+				}
 				old := x.getHeap(bc.st, k)
+				olds[k] = old
 				bc.st.heaps[k] = x.b.Fresh(k+"_after_"+shortFn(name), x.heapSorts[k])
 				if k == "G_alloc" {
 					x.axiom(x.b.Cmp(">=", bc.st.heaps[k], old))
 				}
 			}
+			x.preservePrivate(bc, olds, args)
 			x.havocAllOnCall = true
 		} else {
 			for _, k := range strings.Fields(strings.ReplaceAll(fc.Assigns, ",", " ")) {
@@ -295,10 +351,35 @@ func (x *Exec) applyContract(bc *blockCtx, in ssa.Instruction, f *ssa.Function, 
 	}
 	post := &CEnv{x: x, st: bc.st, old: pre, vars: vars, pkg: fnPkg(f), guard: bc.reach, fc: fc, lets: ce.lets, hypo: true}
 	x.bindResults(post, sig, res)
+	var only map[string]bool
+	if x.rootC != nil && x.rootC.UseEnsures != nil {
+		only = x.rootC.UseEnsures[name]
+		if only == nil {
+			only = x.rootC.UseEnsures[fc.Name]
+		}
+		if only == nil && f.Origin() != nil {
+			only = x.rootC.UseEnsures[fnKey(f.Origin())]
+		}
+	}
 	for _, e := range fc.Ensures {
+		if only != nil && !only[e.Label] {
+			continue
+		}
 		x.assume(bc.reach, x.evalBool(post, e))
 	}
+	if only != nil {
+		x.note("only the postconditions " + strings.Join(sortedKeys(only), ", ") + " of " + name + " are used here (useensures)")
+	}
 	return res
+}
+
+func sortedKeys(m map[string]bool) []string {
+	var ks []string
+	for k := range m {
+		ks = append(ks, k)
+	}
+	sort.Strings(ks)
+	return ks
 }
 
 func (x *Exec) havocResult(bc *blockCtx, sig *types.Signature, name string) *Val {
@@ -333,6 +414,9 @@ func (x *Exec) bindResults(ce *CEnv, sig *types.Signature, res *Val) {
 
 // invoke models an interface method call.
 func (x *Exec) invoke(bc *blockCtx, in ssa.Instruction, recv *Val, m *types.Func, args []*Val, resT *types.Tuple) *Val {
+	saved := x.curArgs
+	x.curArgs = args
+	defer func() { x.curArgs = saved }()
 	if f, rv := x.devirt(recv, m.Name()); f != nil {
 		return x.callStatic(bc, in, f, nil, append([]*Val{rv}, args...))
 	}
@@ -478,6 +562,9 @@ func (x *Exec) ifaceAxiom(key string, m *types.Func) {
 
 // callDynamic models a call through a function value.
 func (x *Exec) callDynamic(bc *blockCtx, in ssa.Instruction, fv *Val, cc *ssa.CallCommon, args []*Val) *Val {
+	saved := x.curArgs
+	x.curArgs = args
+	defer func() { x.curArgs = saved }()
 	ft := x.asTerm(fv)
 	if cl, ok := x.closures[ft.ID]; ok {
 		return x.callStatic(bc, in, cl.Fn, cl.Binds, args)
@@ -1251,6 +1338,9 @@ func (x *Exec) closureArgEffects(bc *blockCtx, args []*Val, callee string) {
 		}
 		if unknown {
 			for k := range x.heapSorts {
+				if k == "G_locked" {
+					continue
+				}
 				old := x.getHeap(bc.st, k)
 				bc.st.heaps[k] = x.b.Fresh(k+"_after_closure_"+shortFn(callee), x.heapSorts[k])
 				if k == "G_alloc" {
